@@ -35,7 +35,8 @@ Verdict(c) ==
     IF ~Shape(c) THEN "malformed: configuration / event list"
     ELSE IF ~Timing(c) THEN "malformed: time stamps of the phase machine"
     ELSE IF ~Causal(c) THEN "malformed: reference domain too small for the window"
-    ELSE IF ~(D!AllFacesAbsorb(c.thickFaces) /\ D!ZeroCharge(c.dcPpb)) THEN "ok"      \* outside the premise: no claim
+    \* premise: the CONFIGURED thickness (>= 8 on every face, BoundaryConfig.from_uniform_bound) and a charge-free pulse
+    ELSE IF ~(D!AllFacesAbsorb(<< c.thick >>) /\ D!ZeroCharge(c.dcPpb)) THEN "ok"      \* outside the premise: no claim
     ELSE IF ~(\E i \in 1..N(c) : c.events[i].e = D!PeakUnits) THEN "malformed: peak sample missing from the log"
     ELSE IF ~(\E i \in 1..N(c) : Phase(c, c.events[i]) = "Quiet") THEN "malformed: no Quiet sample"
     ELSE IF \E i \in 1..N(c) : ~D!QuietOK(Phase(c, c.events[i]), c.events[i].e)
@@ -43,6 +44,8 @@ Verdict(c) ==
     ELSE IF ~c.winRefPos THEN "malformed: reference field is zero in the window (vacuous)"
     ELSE IF ~D!DiffOK(c.winDiffPpb)
          THEN "window: recorded field differs from the large reference domain by 1e-4 or more in relative energy"
+    \* not part of the statement (reported as spec drift): the placed layers are not the configured ones
+    ELSE IF \E i \in 1..6 : c.thickFaces[i] # c.thick THEN "layers: a placed layer does not have the configured thickness"
     ELSE "ok"
 TInit == ci = 1 /\ TLCSet(1, << >>)
 TNext == /\ ci <= Len(Cases)
